@@ -114,9 +114,10 @@ CLAIMS = {
 }
 
 EXTRA = {
-    'C01': ' Helper tables: is_all_chars/is_full/is_range/is_atomic/match_char_set/RE::is_empty denote their specification (logical equivalence), inter/union flatten both operands in order, char/char_set/range build the Range term of their bounds.',
+    'C01': ' Helper tables: is_all_chars/is_full/is_range/is_atomic/match_char_set/RE::is_empty denote their specification (logical equivalence), inter/union flatten both operands in order, char/char_set/range build the Range term of their bounds. No wrapper closure captures an impl IntoIterator (no caller code under the RefCell borrow; defect fixed in d058449).',
     'C04': ' Helper tables: FastSet (membership formula, exact effect of insert/remove/reset, iterator), BasePartition/Partition accessors and new (segment[i] = i, headers), SplitterList::has_active_items, SplitterSet::new.',
     'C07': ' Complement keys are built only in ReManager::new and ReManager::make.',
+    'C12': ' R3 (under C12 only): the literal clause "same class of the result exactly when same class of both inputs" - violated by design (interval classes; an interval strictly inside an interval of the other partition splits the outer class): open entries in known_findings.json, printed as KNOWN-FINDING.',
     'C11': ' Helper tables: class_ids/picks/ranges start at position 0 of this partition; interval(i) is list[i].',
     'C14': ' Helper tables: Automaton::state/states, State accessors and delegations to its own partition, StateMapping::is_class_rep, StateInConstruction::new/add_transition, CompactTable accessors.',
     'C16': ' R4 passes of concat_inclusion (base_patterns cuts maximal runs of equal rigidity; find_rigid_matches(_rev) search every rigid pattern in order from the running position and record the hit; set_flexible_regions; match_flexible_patterns; shift_pattern_start) and C16.H leaves (flexible_match only against exactly [Sigma*], rigid_match_at compares every position, prefix/suffix offsets, char_sets_of_pattern, next/prev_rigid_match report only positions where rigid_match_at holds); the composition of these into L(u) subset L(v) is the paper argument of DESIGN 5.C16.',
